@@ -7,6 +7,9 @@ mod c04;
 mod c05;
 mod c06;
 mod c07;
+mod c08;
+mod c11;
+mod gen;
 mod c13;
 mod common;
 mod e3;
@@ -52,6 +55,8 @@ fn main() {
         let viols = match case["kind"].as_str().unwrap_or("") {
             "crash" => c03::replay(case),
             "fault" => c04::replay(case),
+            k if k.starts_with("c11-") => c11::replay(case),
+            "c08" => c08::replay(case),
             "delete" => c05::replay(case),
             "e3" => match case["check"].as_str().unwrap_or("") {
                 "C06" => c06::replay(case),
@@ -86,6 +91,25 @@ fn main() {
     let id = args[1].as_str();
     let tier = args[2].as_str();
     let report = Report::new(id, tier, level_of(id));
+    {
+        // A case that never finishes is a verdict for the properties that promise termination.
+        let id2 = id.to_string();
+        util::set_hang_handler(Box::new(move |name: &str| {
+            if let Some((desc, case)) = name.split_once('\t') {
+                if let Ok(case) = serde_json::from_str::<serde_json::Value>(case) {
+                    let r = Report::new(&id2, "quick", "model_checking");
+                    r.violation(
+                        &report::Violation::new(
+                            format!("{id2}:operation-does-not-terminate"),
+                            format!("{desc}: did not finish within the hang limit"),
+                        ),
+                        &case,
+                    );
+                    std::process::exit(1);
+                }
+            }
+        }));
+    }
     let budget = budget_for(tier);
     match id {
         "C02" => c02::run(&report, &budget),
@@ -94,6 +118,8 @@ fn main() {
         "C05" => c05::run(&report, &budget),
         "C06" => c06::run(&report, &budget),
         "C07" => c07::run(&report, &budget),
+        "C08" => c08::run(&report, &budget),
+        "C11" => c11::run(&report, &budget),
         _ => {
             eprintln!("unknown property {id}");
             std::process::exit(2);
